@@ -540,7 +540,25 @@ package decoder
 // ---------------------------------------------------------------- struct key matching by bitmap (C15, C06)
 // Well-formedness of the tables tryOptimize builds (assumed of its output; bounded check in the thorough tier):
 // n field names, one bitmap row per key position plus a final all-zero row, bit i set only for i < n.
-//@ spec wfBitmap8(d) := len(d.sortedFieldSets) <= 8 && len(d.keyBitmapUint8) >= 1 && (forall i :: 0 <= i && i < len(d.sortedFieldSets) ==> d.sortedFieldSets[i] != nil) && (forall j, c :: 0 <= j && j < len(d.keyBitmapUint8) && 0 <= c && c < 256 ==> d.keyBitmapUint8[j][c] < pow2(len(d.sortedFieldSets))) && (forall c :: 0 <= c && c < 256 ==> d.keyBitmapUint8[len(d.keyBitmapUint8)-1][c] == 0)
+//@ spec nfields(d) := len(d.sortedFieldSets)
+// (the rows are contiguous [256]uint8 arrays, so the table is stated over its bytes)
+//@ spec wfFields(d) := forall i :: 0 <= i && i < nfields(d) ==> d.sortedFieldSets[i] != nil
+//@ spec wfRowBits8(d) := forall k :: 0 <= k && k < 256 * len(d.keyBitmapUint8) ==> M(ptrOf(d.keyBitmapUint8) + k) < pow2(nfields(d))
+//@ spec wfLastRow8(d) := forall k :: 0 <= k && k < 256 ==> M(ptrOf(d.keyBitmapUint8) + 256 * (len(d.keyBitmapUint8) - 1) + k) == 0
+//@ spec wfBitmap8(d) := nfields(d) <= 8 && len(d.keyBitmapUint8) >= 1 && wfFields(d) && wfRowBits8(d) && wfLastRow8(d)
+// bit-level meaning of a row entry: bit j of keyBitmap[i][x] may be set only if field j's name is longer than i
+//@ spec bit(i, x) := (x / pow2(i)) % 2 == 1
+//@ spec rowOK8(d, k, j) := j < nfields(d) && bit(j, M(ptrOf(d.keyBitmapUint8) + k)) ==> k / 256 < d.sortedFieldSets[j].keyLen
+//@ spec wfRows8(d) := forall k :: 0 <= k && k < 256 * len(d.keyBitmapUint8) ==> rowOK8(d, k, 0) && rowOK8(d, k, 1) && rowOK8(d, k, 2) && rowOK8(d, k, 3) && rowOK8(d, k, 4) && rowOK8(d, k, 5) && rowOK8(d, k, 6) && rowOK8(d, k, 7)
+//@ spec curOK(d, cb, ki, j) := j < nfields(d) && bit(j, cb) ==> ki <= d.sortedFieldSets[j].keyLen
+//@ spec curAll8(d, cb, ki) := curOK(d, cb, ki, 0) && curOK(d, cb, ki, 1) && curOK(d, cb, ki, 2) && curOK(d, cb, ki, 3) && curOK(d, cb, ki, 4) && curOK(d, cb, ki, 5) && curOK(d, cb, ki, 6) && curOK(d, cb, ki, 7)
+//@ spec wfLens(d) := forall i :: 0 <= i && i < nfields(d) ==> d.sortedFieldSets[i].keyLen >= 0
+//@ spec wfRowBits16(d) := forall k :: 0 <= k && k < 256 * len(d.keyBitmapUint16) ==> wordAt(ptrOf(d.keyBitmapUint16) + 2 * k, 2) < pow2(nfields(d))
+//@ spec wfLastRow16(d) := forall k :: 0 <= k && k < 256 ==> wordAt(ptrOf(d.keyBitmapUint16) + 512 * (len(d.keyBitmapUint16) - 1) + 2 * k, 2) == 0
+//@ spec wfBitmap16(d) := nfields(d) <= 16 && len(d.keyBitmapUint16) >= 1 && wfFields(d) && wfRowBits16(d) && wfLastRow16(d)
+//@ spec rowOK16(d, k, j) := j < nfields(d) && bit(j, wordAt(ptrOf(d.keyBitmapUint16) + 2 * k, 2)) ==> k / 256 < d.sortedFieldSets[j].keyLen
+//@ spec wfRows16(d) := forall k :: 0 <= k && k < 256 * len(d.keyBitmapUint16) ==> rowOK16(d, k, 0) && rowOK16(d, k, 1) && rowOK16(d, k, 2) && rowOK16(d, k, 3) && rowOK16(d, k, 4) && rowOK16(d, k, 5) && rowOK16(d, k, 6) && rowOK16(d, k, 7) && rowOK16(d, k, 8) && rowOK16(d, k, 9) && rowOK16(d, k, 10) && rowOK16(d, k, 11) && rowOK16(d, k, 12) && rowOK16(d, k, 13) && rowOK16(d, k, 14) && rowOK16(d, k, 15)
+//@ spec curAll16(d, cb, ki) := curOK(d, cb, ki, 0) && curOK(d, cb, ki, 1) && curOK(d, cb, ki, 2) && curOK(d, cb, ki, 3) && curOK(d, cb, ki, 4) && curOK(d, cb, ki, 5) && curOK(d, cb, ki, 6) && curOK(d, cb, ki, 7) && curOK(d, cb, ki, 8) && curOK(d, cb, ki, 9) && curOK(d, cb, ki, 10) && curOK(d, cb, ki, 11) && curOK(d, cb, ki, 12) && curOK(d, cb, ki, 13) && curOK(d, cb, ki, 14) && curOK(d, cb, ki, 15)
 //@ tablelemma[C15,C06] largeToSmallTable(j, v) := v == ((j >= 65 && j <= 90) ? j + 32 : j)
 
 // Position contract of the escape helpers: on success c is the index of the LAST byte of the escape sequence
@@ -550,15 +568,16 @@ package decoder
 //@   props C15 C06
 //@   requires bufOK(buf, cursor)
 //@   ensures err == nil ==> cursor <= c && c < len(buf) - 1
-//@   ensures err == nil && simpleEsc(buf[cursor]) ==> c == cursor && len(chars) == 1
-//@   ensures !simpleEsc(buf[cursor]) && buf[cursor] != 'u' ==> err != nil
-//@   assigns M
+//@   ensures err == nil && simpleEsc(old(buf[cursor])) ==> c == cursor && len(chars) == 1
+//@   ensures !simpleEsc(old(buf[cursor])) && old(buf[cursor]) != 'u' ==> err != nil
+//@   ensures err == nil ==> len(chars) >= 1 && len(chars) <= 4
+//@   assigns fresh
 
 //@ func decodeKeyCharByUnicodeRune(buf, cursor) (chars, c, err)
 //@   props C15 C06
 //@   requires bufOK(buf, cursor)
 //@   ensures err == nil ==> cursor <= c && c < len(buf) - 1 && len(chars) >= 1 && len(chars) <= 4
-//@   assigns M
+//@   assigns fresh
 
 //@ func unicodeToRune(code) (r)
 //@   props C15 C06
@@ -567,21 +586,57 @@ package decoder
 //@   loop 1: invariant 0 <= i && 0 <= r && r < pow2(4 * i) && i <= len(code)
 //@   loop 1: decreases len(code) - i
 
+// the skipper works on the raw data pointer; the sentinel position is a ghost parameter
 //@ func decodeKeyNotFound(b, cursor) (c, field, err)
 //@   props C15 C06
-//@   trusted key skipper over a raw pointer (no slice to state the sentinel on); checked by reading
-//@   ensures err == nil ==> field == nil && cursor < c
+//@   ghostparam end
+//@   requires region(b, end + 1) && 0 <= cursor && cursor < end && M(b + end) == 0
+//@   ensures err == nil ==> field == nil && cursor < c && c <= end
 //@   assigns nothing
+//@   loop 1: invariant old(cursor) <= cursor && cursor < end
 
 //@ func decodeKeyByBitmapUint8(d, buf, cursor) (c, field, err)
 //@   props C15 C06
-//@   requires d != nil && bufOK(buf, cursor) && wfBitmap8(d)
+//@   requires d != nil && bufOK(buf, cursor) && wfBitmap8(d) && region(ptrOf(d.keyBitmapUint8), 256 * len(d.keyBitmapUint8)) && wfRows8(d) && wfLens(d)
 //@   ghost klen := keyIdx
 //@   ensures err == nil ==> cursor < c && c < len(buf)
 // a field is selected only if the number of DECODED key bytes equals the length of its name
 //@   ensures err == nil && field != nil ==> klen == field.keyLen
-//@   assigns M
+//@   assigns fresh
+//@   nomerge
+//@   callghost decodeKeyNotFound: end := len(buf) - 1
 //@   loop 1: invariant old(cursor) <= cursor && cursor < len(buf) && buf[len(buf)-1] == 0
-//@   loop 2: invariant start <= cursor && cursor < len(buf) && buf[len(buf)-1] == 0 && 0 <= keyIdx && keyIdx < len(bitmap) && bitmap == d.keyBitmapUint8 && wfBitmap8(d)
-//@   loop 2: invariant keyIdx >= 1 ==> curBit < pow2(len(d.sortedFieldSets))
+//@   loop 2: invariant old(cursor) < cursor && cursor < len(buf) && buf[len(buf)-1] == 0
+//@   loop 2: invariant 0 <= keyIdx && keyIdx < len(bitmap) && bitmap == d.keyBitmapUint8 && curBit != 0
+//@   loop 2: invariant nfields(d) <= 8 && len(d.keyBitmapUint8) >= 1
+//@   loop 2: invariant wfFields(d)
+//@   loop 2: invariant wfRowBits8(d)
+//@   loop 2: invariant wfLastRow8(d)
+//@   loop 2: invariant wfRows8(d)
+//@   loop 2: invariant curAll8(d, curBit, keyIdx)
+//@   loop 2: invariant keyIdx >= 1 ==> curBit < pow2(nfields(d))
+//@   loop 2: invariant keyIdx == 0 ==> buf[cursor] != '"'
+//@   loop 3: unroll 4
+
+//@ func decodeKeyByBitmapUint16(d, buf, cursor) (c, field, err)
+//@   props C15 C06
+//@   requires d != nil && bufOK(buf, cursor) && wfBitmap16(d) && region(ptrOf(d.keyBitmapUint16), 512 * len(d.keyBitmapUint16)) && wfRows16(d) && wfLens(d)
+//@   ghost klen := keyIdx
+//@   ensures err == nil ==> cursor < c && c < len(buf)
+// a field is selected only if the number of DECODED key bytes equals the length of its name
+//@   ensures err == nil && field != nil ==> klen == field.keyLen
+//@   assigns fresh
+//@   nomerge
+//@   callghost decodeKeyNotFound: end := len(buf) - 1
+//@   loop 1: invariant old(cursor) <= cursor && cursor < len(buf) && buf[len(buf)-1] == 0
+//@   loop 2: invariant old(cursor) < cursor && cursor < len(buf) && buf[len(buf)-1] == 0
+//@   loop 2: invariant 0 <= keyIdx && keyIdx < len(bitmap) && bitmap == d.keyBitmapUint16 && curBit != 0
+//@   loop 2: invariant nfields(d) <= 16 && len(d.keyBitmapUint16) >= 1
+//@   loop 2: invariant wfFields(d)
+//@   loop 2: invariant wfRowBits16(d)
+//@   loop 2: invariant wfLastRow16(d)
+//@   loop 2: invariant wfRows16(d)
+//@   loop 2: invariant curAll16(d, curBit, keyIdx)
+//@   loop 2: invariant keyIdx >= 1 ==> curBit < pow2(nfields(d))
+//@   loop 2: invariant keyIdx == 0 ==> buf[cursor] != '"'
 //@   loop 3: unroll 4
